@@ -19,6 +19,7 @@ pub trait Serialize {
 //@|        (forall|i: int| 0 <= i < old(cursor).pos ==> #[trigger] final(cursor).buf()[i] == old(cursor).buf()[i]),   // nothing already written is touched
 //@|        r is Ok ==> self.ser_ok(final(cursor).buf().subrange(old(cursor).pos as int, final(cursor).pos as int)),
 //@|        r matches Err(RequestError::Exception(e)) ==> self.ser_exc(e),
+//@|        r is Err ==> (r->Err_0 is Exception || r->Err_0 is Internal),   // nothing else can go wrong while serializing
 }
 
 // R8: `Loggable` bodies are formatting code and are not extracted; the trait is kept as a marker so that bounds type-check
